@@ -298,8 +298,16 @@ pub fn run(data: &[u8], ctx: &mut Ctx) -> Outcome {
         let (resp, model): (Response, M) = match kind {
             3 => (Response::new_success(id), id_subject.add(M::assertion(M::Known(101), M::Known(103)))),
             4 => {
-                let r = if src.bool() { Response::new_success(id).with_result(v.clone()) } else { Response::new_success(id).with_optional_result(Some(v.clone())) };
-                (r, id_subject.add(M::assertion(M::Known(101), vm.clone())))
+                let b = src.bool();
+                if crate::src::fnv(&vm.tagged()) % 5 == 0 {
+                    // the None arm of the optional form: documented as "sets the result to null" (no draw: decided
+                    // by the generated value)
+                    ctx.class("response:with_optional_result(None)");
+                    (Response::new_success(id).with_optional_result(None::<Envelope>), id_subject.add(M::assertion(M::Known(101), M::leaf_item(&Item::Null))))
+                } else {
+                    let r = if b { Response::new_success(id).with_result(v.clone()) } else { Response::new_success(id).with_optional_result(Some(v.clone())) };
+                    (r, id_subject.add(M::assertion(M::Known(101), vm.clone())))
+                }
             }
             5 => {
                 if src.bool() {
@@ -312,7 +320,13 @@ pub fn run(data: &[u8], ctx: &mut Ctx) -> Outcome {
                 if src.bool() {
                     (Response::new_early_failure(), unknown_subject.add(M::assertion(M::Known(102), M::Known(17))))
                 } else {
-                    (Response::new_early_failure().with_optional_error(Some(v.clone())), unknown_subject.add(M::assertion(M::Known(102), vm.clone())))
+                    if crate::src::fnv(&vm.tagged()) % 5 == 0 {
+                        // the None arm: the error stays what it was ('Unknown')
+                        ctx.class("response:with_optional_error(None)");
+                        (Response::new_early_failure().with_optional_error(None::<Envelope>), unknown_subject.add(M::assertion(M::Known(102), M::Known(17))))
+                    } else {
+                        (Response::new_early_failure().with_optional_error(Some(v.clone())), unknown_subject.add(M::assertion(M::Known(102), vm.clone())))
+                    }
                 }
             }
         };
